@@ -31,7 +31,7 @@ OPS = ['store'] * 5 + ['multi'] * 2 + ['undo'] * 6 + ['undo2'] * 2 + ['undo3', '
 
 
 def shards(tier, seed):
-    return split(tier, seed, 2400, 24000, 40, 900)
+    return split(tier, seed, 4800, 200000, 40, 900)
 
 
 def adopt_spec(st):
